@@ -670,7 +670,7 @@ def model_check(c, configs=None):
         if res.violated:
             raise tlcmod.TlcError("design-level violation in %s: %s\n%s" % (cfg, res.invariant_violated or res.property_violated,
                                                                            res.trace_text[:3000]))
-    res = c.tlc("MC_Authz", "MC_Authz.cfg", workers=1, coverage=False, timeout=120)
+    res = c.tlc("MC_Authz", "MC_Authz.cfg", workers=1, coverage=False, timeout=600)
     if res.violated:
         raise tlcmod.TlcError("Authz.tla fails its statement-level properties")
 
